@@ -82,23 +82,30 @@ P_OPS = ["walk-p", "multiwalk-p", "bulkwalk1x2-p", "bulkwalk2x2-p", "bulktable2-
 ERR_OPS = ["walk-err", "multiwalk-err", "multiwalk-warn-err", "table-err", "bulkwalk2-err", "bulkwalk1x2-err"]
 PLAN = {
     "quick": [(o, "W7", None) for o in ALL_OPS if o not in ("bulkwalk2x2",)] + [("bulkwalk2x2", "W5", None), ("bulkwalk2x2", "W7", 3)] + [(o, "W5", 3) for o in CUT_OPS]
-    + [(o, "W7P", 2) for o in P_OPS] + [(o, "W5", 2) for o in ERR_OPS],
+    + [(o, "W7P", 2) for o in P_OPS] + [(o, "W5", 2) for o in ERR_OPS]
+    + [(o, "W7M", 2) for o in ("walk", "walk-warn", "bulkwalk2", "table")] + [(o + "@v1", "W5", 2) for o in ERR_OPS[:4]] + [("multiwalk@v1", "W7", 2)],
     "thorough": [(o, "W7", None) for o in ALL_OPS]
     + [(o, "W9", None) for o in ("walk", "walk-warn", "multiwalk", "multiwalk-warn", "bulkwalk1", "bulkwalk2", "bulkwalk1x2", "table")]
     + [(o, "W9", 4) for o in ("bulkwalk3", "bulkwalk2x2", "bulktable2", "bulkwalk4")]
     + [("bulkwalk4", "W7", None)]
     + [(o, "W7", 4) for o in CUT_OPS] + [("bulkwalk1-cut", "W5", None), ("bulkwalk2-cut", "W5", None)]
-    + [(o, "W7P", 4) for o in P_OPS] + [(o, "W7", 3) for o in ERR_OPS],
+    + [(o, "W7P", 4) for o in P_OPS] + [(o, "W7", 3) for o in ERR_OPS]
+    + [(o, "W7M", None) for o in ("walk", "walk-warn", "table")] + [(o, "W7M", 4) for o in ("bulkwalk2", "multiwalk", "bulkwalk1")]
+    + [(o + "@v1", "W7", 3) for o in ERR_OPS[:4]] + [("multiwalk@v1", "W7", None), ("walk@v1", "W7", None)],
 }
 W9 = sorted(W7 + [(1, 3, 2, 4), (1, 3, 3, 2)])
-UNIVERSES = {"W5": W5, "W7": W7, "W9": W9, "W7P": W7P}
+# sub-identifiers whose BER encodings have different lengths (300 = 82 2c,
+# 16385 = 81 80 01: numeric and byte-wise order disagree)
+W7M = [(1, 3, 1, 9), A, (1, 3, 2, 127), (1, 3, 2, 128), (1, 3, 2, 300), (1, 3, 2, 16385), (1, 7, 1)]
+TRUE_DB_M = [(1, 3, 2, 127), (1, 3, 2, 128), (1, 3, 2, 300), (1, 3, 2, 16385)]
+UNIVERSES = {"W5": W5, "W7": W7, "W9": W9, "W7P": W7P, "W7M": W7M}
 MAX_EXEC = {"quick": 60_000, "thorough": 1_500_000}
 
 
-def creds():
-    from puresnmp.credentials import V2C
+def creds(v1=False):
+    from puresnmp.credentials import V1, V2C
 
-    return V2C("public")
+    return V1("public") if v1 else V2C("public")
 
 
 def true_successor(oid, db=TRUE_DB):
@@ -109,6 +116,8 @@ def true_successor(oid, db=TRUE_DB):
 
 
 def make_run(opname, uname, client):
+    v1 = opname.endswith("@v1")
+    opname = opname.replace("@v1", "")
     op, roots, family = OPS[opname]
     W = UNIVERSES[uname]
     horizon = 3 * len(W) + 6
@@ -119,14 +128,14 @@ def make_run(opname, uname, client):
     def run(ctx):
         # a fresh client per execution: whatever an implementation keeps on
         # its client cannot make executions depend on one another
-        client = shared if shared is not None else world.make_client(creds(), lambda p: b"")[0]
+        client = shared if shared is not None else world.make_client(creds(v1), lambda p: b"")[0]
         memo = {}
         revealed = set()
 
         def fn(agent, oid, rep):
             key = (oid, rep)
             if key not in memo:
-                default = true_successor(oid, TRUE_DB_P if uname == "W7P" else TRUE_DB)
+                default = true_successor(oid, TRUE_DB_P if uname == "W7P" else TRUE_DB_M if uname == "W7M" else TRUE_DB)
                 menu = [default] + [w for w in W if w != default] + ([None] if default is not None else [])
                 k = ctx.choose(len(menu), "f%r" % (key,))
                 memo[key] = menu[k]
@@ -182,7 +191,7 @@ def make_run(opname, uname, client):
         reqs = ag.requests()
         nreq = len(reqs)
         facts = {
-            "op": opname,
+            "op": opname + ("@v1" if v1 else ""),
             "universe": uname,
             "function": sorted((list(k[0]), k[1], list(v) if v is not None else None) for k, v in memo.items()),
             "requests": [[list(o) for o, _ in e["msg"]["pdu"]["varbinds"]] for e in reqs],
